@@ -440,7 +440,7 @@ class EvolvableModule(nn.Module, metaclass=ModuleMeta):
                 if old_size == new_size:
                     # If the sizes are the same, just copy the parameter
                     param.data = old_param.data
-                elif "norm" not in key:
+                else:
                     # Create a slicing index to handle tensors with varying sizes
                     slice_index = tuple(
                         slice(0, min(o, n)) for o, n in zip(old_size, new_size)
